@@ -177,7 +177,9 @@ pub fn run(tier: Tier, shard: Shard, rep: &mut Report) {
          O_CREAT|O_EXCL inside a cache directory outside .kismet_temp; <= 2 publication attempts per write; no deadlock; no operation \
          failing or spinning past the horizon. Plus: a solo sharded set/put under every combination of load estimates {{0, 101, 255}} x {{0, 101, 255}} left behind by peers \
          (shard capacity 50) and of where the key lives: it finishes within 3000 of its own filesystem steps; likewise put/set/ensure/get/touch/put_temp_file \
-         when a dangling symbolic link, a symbolic link to a directory or a directory sits under the key's name. \
+         when a dangling symbolic link, a symbolic link to a directory or a directory sits under the key's name; and get/touch/put/set/ensure (plain, sharded, stacked; key cached or not; maintenance firing) with every call of one kind \
+         (open, opendir, stat, link, rename, unlink, utimens, write, fsync, close) refused for the whole operation with EMFILE, ENFILE, ENOMEM, ENOSPC, EAGAIN or EBUSY \
+         (what stalled or dead peers holding the resource cause): the operation gives up or does without within 3000 of its own steps. \
          Non-trivial = execution with >= 1 preemption; solo suffixes are counted.",
         STEP_A, STEP_B
     );
@@ -196,6 +198,8 @@ pub fn run(tier: Tier, shard: Shard, rep: &mut Report) {
     estimate_section(shard, rep);
     crate::run::reset_env();
     odd_state_section(shard, rep);
+    crate::run::reset_env();
+    exhausted_resource_section(shard, rep);
 }
 
 /// Aborts the (forked) process once the operation has issued more than `budget` filesystem calls.
@@ -385,9 +389,119 @@ fn odd_state_section(shard: Shard, rep: &mut Report) {
     }
 }
 
+
+/// Every call of one kind refused, for as long as the operation runs, with an errno that says "a resource is
+/// exhausted" (descriptors, memory, space): the state a process is in while stalled or dead peers hold the resource.
+/// Nobody will release anything, so an operation that waits for the resource never returns; it must give up (or do
+/// without) within a bounded number of its own steps.
+struct Starved {
+    kind: crate::shim::Kind,
+    errno: i32,
+    budget: u64,
+    n: std::sync::atomic::AtomicU64,
+}
+
+impl crate::shim::Controller for Starved {
+    fn before(&self, ev: &crate::shim::Ev) -> crate::shim::Action {
+        if self.n.fetch_add(1, std::sync::atomic::Ordering::SeqCst) >= self.budget {
+            crate::shim::Action::Die
+        } else if ev.kind == self.kind {
+            crate::shim::Action::Fail(self.errno)
+        } else {
+            crate::shim::Action::Proceed
+        }
+    }
+}
+
+fn exhausted_resource_section(shard: Shard, rep: &mut Report) {
+    use crate::ops::{Checker, Dirs, Front, Op, Pop, StackCfg};
+    use crate::shim::Kind;
+    use crate::world::{Scratch, Size, Val};
+    let kinds = [Kind::Open, Kind::Opendir, Kind::Stat, Kind::Link, Kind::Rename, Kind::Unlink, Kind::Utimens, Kind::Write, Kind::Fsync, Kind::Close];
+    let errnos = [libc::EMFILE, libc::ENFILE, libc::ENOMEM, libc::ENOSPC, libc::EAGAIN, libc::EBUSY];
+    let mut no = 0u64;
+    for front_no in 0..3u8 {
+        for present in [true, false] {
+            for opk in 0..5u8 {
+                for kind in kinds {
+                    for errno in errnos {
+                        no += 1;
+                        if !shard.mine(no) {
+                            continue;
+                        }
+                        crate::run::reset_env();
+                        let sc = Scratch::new();
+                        let dirs = Dirs::under(&sc.root, if front_no == 2 { 1 } else { 0 });
+                        let front = if front_no == 1 { Front::Sharded(2) } else { Front::Plain };
+                        let key = crate::ops::key_for_shards("k", 0, 1, 2);
+                        let old = crate::run::base_time_ns() as i128 - 86_400_000_000_000;
+                        let home = crate::ops::candidate_dirs(&dirs.write, front, &key)[0].clone();
+                        crate::shim::passthrough(|| std::fs::create_dir_all(&home).unwrap());
+                        // the directory is over its capacity of 1, so that a firing maintenance has work to do
+                        crate::world::plant(&home.join("other1"), b"x", 0o444, old + 5_000_000_000, old);
+                        crate::world::plant(&home.join("other2"), b"y", 0o444, old - 125_000_000_000, old - 5_000_000_000);
+                        if present {
+                            let at = if front_no == 2 { dirs.reads[0].join("k") } else { home.join("k") };
+                            crate::world::plant(&at, &Val::one(0).bytes(), 0o444, old - 120_000_000_000, old - 1_000_000_000);
+                        }
+                        let cfg = StackCfg {
+                            writer: Some((front, if front_no == 1 { 2 } else { 1 })),
+                            readers: if front_no == 2 { vec![Front::Plain] } else { vec![] },
+                            checker: Checker::None,
+                            auto_sync: true,
+                        };
+                        let cache = crate::ops::build(&cfg, &dirs, None);
+                        let v = Val::new(1, Size::One);
+                        let op = match opk {
+                            0 => Op::Get(key.clone()),
+                            1 => Op::Touch(key.clone()),
+                            2 => Op::Put(key.clone(), v),
+                            3 => Op::Set(key.clone(), v),
+                            _ => Op::Ensure(key.clone(), Pop::Value(v)),
+                        };
+                        rep.evaluations += 1;
+                        rep.states += 1;
+                        rep.traces += 1;
+                        rep.count("exhausted_resource_cases", 1);
+                        let pid = unsafe { libc::fork() };
+                        if pid == 0 {
+                            crate::shim::set_controller(Some(std::sync::Arc::new(Starved { kind, errno, budget: 3000, n: std::sync::atomic::AtomicU64::new(0) })));
+                            let _ = crate::run::as_participant(0, 0, || {
+                                crate::run::trigger_fire_next(u64::MAX);
+                                crate::ops::exec(&cache, &dirs, &op, &Default::default())
+                            });
+                            unsafe { libc::_exit(0) };
+                        }
+                        let mut status: libc::c_int = 0;
+                        unsafe { libc::waitpid(pid, &mut status, 0) };
+                        let code = if libc::WIFEXITED(status) { libc::WEXITSTATUS(status) } else { -1 };
+                        let label = format!(
+                            "{} {} (key {}) with every {} call refused with errno {}, alone",
+                            ["plain", "sharded", "stacked"][front_no as usize],
+                            op.label(),
+                            if present { "cached" } else { "absent" },
+                            kind.name(),
+                            errno
+                        );
+                        if code == 137 {
+                            rep.violation("progress:step-bound", format!("{}: still running after 3000 filesystem steps", label), serde_json::json!({"exhausted_resource_section": true}));
+                        } else if code != 0 {
+                            rep.violation("progress:panic", format!("{}: child ended with {}", label, code), serde_json::json!({"exhausted_resource_section": true}));
+                        }
+                    }
+                }
+            }
+        }
+    }
+}
+
 pub fn replay(case: &Value, rep: &mut Report) {
     if case.get("odd_state_section").is_some() {
         odd_state_section(Shard { index: 0, count: 1 }, rep);
+        return;
+    }
+    if case.get("exhausted_resource_section").is_some() {
+        exhausted_resource_section(Shard { index: 0, count: 1 }, rep);
         return;
     }
     if case.get("estimate_section").is_some() {
